@@ -27,7 +27,7 @@ func (t *Tree) computeEdgeHashesRightRecur(cur, prev *Node, e *Edge) {
 		e.ntaxright = 0
 		e.hashcoderight = 0
 	}
-	if cur.Tip() {
+	if cur.Tip() && e != nil {
 		//tipIndex, _ := t.TipIndex(cur.Name())
 		e.hashcoderight = tax_hash(cur.Name())
 		e.ntaxright++
